@@ -108,6 +108,10 @@ func vH_C05_conc() {
 	}
 	// ---- reader
 	rop := vChoose("read-op", 0, 4)
+	// the reader records what it saw; the comparison with the version log is
+	// made by main after all goroutines have finished (the mutator appends a
+	// version record only after its call returned)
+	var verdict func()
 	go func() {
 		ts := x.tick()
 		switch rop {
@@ -116,49 +120,55 @@ func vH_C05_conc() {
 			got, err := ca.Get(key)
 			te := x.tick()
 			vAssert("get-noerr", err == nil)
-			ok := false
-			for k := range x.vers {
-				if !x.acceptable(k, ts, te) {
-					continue
+			verdict = func() {
+				ok := false
+				for k := range x.vers {
+					if !x.acceptable(k, ts, te) {
+						continue
+					}
+					j := x.vers[k].a.find(key)
+					if j < 0 {
+						ok = vOr(ok, got == nil)
+					} else {
+						ok = vOr(ok, vAnd(got != nil, vBytesEq(got, x.vers[k].a.ents[j].val)))
+					}
 				}
-				j := x.vers[k].a.find(key)
-				if j < 0 {
-					ok = vOr(ok, got == nil)
-				} else {
-					ok = vOr(ok, vAnd(got != nil, vBytesEq(got, x.vers[k].a.ents[j].val)))
-				}
+				vAssert("get-sees-one-current-version", ok)
 			}
-			vAssert("get-sees-one-current-version", ok)
 		case 1:
 			it, err := ca.MinItem(true)
 			te := x.tick()
 			vAssert("min-noerr", err == nil)
-			ok := false
-			for k := range x.vers {
-				if !x.acceptable(k, ts, te) {
-					continue
+			verdict = func() {
+				ok := false
+				for k := range x.vers {
+					if !x.acceptable(k, ts, te) {
+						continue
+					}
+					m := x.vers[k].a
+					if len(m.ents) == 0 {
+						ok = vOr(ok, it == nil)
+					} else if it != nil {
+						ok = vOr(ok, vAnd(vBytesEq(it.Key, m.ents[0].key), vBytesEq(it.Val, m.ents[0].val)))
+					}
 				}
-				m := x.vers[k].a
-				if len(m.ents) == 0 {
-					ok = vOr(ok, it == nil)
-				} else if it != nil {
-					ok = vOr(ok, vAnd(vBytesEq(it.Key, m.ents[0].key), vBytesEq(it.Val, m.ents[0].val)))
-				}
+				vAssert("min-sees-one-current-version", ok)
 			}
-			vAssert("min-sees-one-current-version", ok)
 		case 2:
 			n, b, err := ca.GetTotals()
 			te := x.tick()
 			vAssert("totals-noerr", err == nil)
-			ok := false
-			for k := range x.vers {
-				if !x.acceptable(k, ts, te) {
-					continue
+			verdict = func() {
+				ok := false
+				for k := range x.vers {
+					if !x.acceptable(k, ts, te) {
+						continue
+					}
+					mn, mb := x.vers[k].a.totals()
+					ok = vOr(ok, vAnd(n == mn, b == mb))
 				}
-				mn, mb := x.vers[k].a.totals()
-				ok = vOr(ok, vAnd(n == mn, b == mb))
+				vAssert("totals-see-one-current-version", ok)
 			}
-			vAssert("totals-see-one-current-version", ok)
 		case 3:
 			var seen []vSeen
 			err := ca.VisitItemsAscendEx(nil, true, func(i *Item, d uint64) bool {
@@ -168,13 +178,15 @@ func vH_C05_conc() {
 			})
 			te := x.tick()
 			vAssert("visit-noerr", err == nil)
-			ok := false
-			for k := range x.vers {
-				if x.acceptable(k, ts, te) {
-					ok = vOr(ok, vMatchSeq(seen, x.vers[k].a))
+			verdict = func() {
+				ok := false
+				for k := range x.vers {
+					if x.acceptable(k, ts, te) {
+						ok = vOr(ok, vMatchSeq(seen, x.vers[k].a))
+					}
 				}
+				vAssert("visit-sees-one-version-never-a-mixture", ok)
 			}
-			vAssert("visit-sees-one-version-never-a-mixture", ok)
 		case 4:
 			sn := s.Snapshot()
 			te := x.tick()
@@ -186,13 +198,15 @@ func vH_C05_conc() {
 				return true
 			})
 			vAssert("snapshot-visit-noerr", err == nil)
-			ok := false
-			for k := range x.vers {
-				if x.acceptable(k, ts, te) {
-					ok = vOr(ok, vMatchSeq(seen, x.vers[k].a))
+			verdict = func() {
+				ok := false
+				for k := range x.vers {
+					if x.acceptable(k, ts, te) {
+						ok = vOr(ok, vMatchSeq(seen, x.vers[k].a))
+					}
 				}
+				vAssert("snapshot-is-one-current-version", ok)
 			}
-			vAssert("snapshot-is-one-current-version", ok)
 			sn.Close()
 		}
 		readDone = true
@@ -201,6 +215,9 @@ func vH_C05_conc() {
 	vBlockUntil(&flushDone)
 	vBlockUntil(&readDone)
 	f.yield = false
+	if verdict != nil {
+		verdict()
+	}
 	if vPreemptions() > 0 {
 		vCover("preempted")
 	}
